@@ -137,4 +137,131 @@ theorem total_vmTransfer (b : Bal) (src dst : Addr) (n : Nat) (h : n ≤ get b s
 theorem vmTransfer_zero (b : Bal) (src dst : Addr) : total (vmTransfer b src dst 0) = total b :=
   total_vmTransfer b src dst 0 (Nat.zero_le _)
 
+/-! ### registry / escrow bookkeeping -/
+
+theorem toWei_add (a b : Nat) : toWei (a + b) = toWei a + toWei b := by
+  unfold toWei
+  induction b with
+  | zero => simp [scale]
+  | succ k ih => rw [← Nat.add_assoc, scale, scale, ih]; omega
+
+theorem toWei_sub_add (a b : Nat) (h : b ≤ a) : toWei (a - b) + toWei b = toWei a := by
+  have := toWei_add (a - b) b
+  rw [Nat.sub_add_cancel h] at this
+  exact this.symm
+
+theorem toWei_div_le (v : Nat) : toWei (v / wei) ≤ v := by
+  rw [toWei_eq]; exact Nat.div_mul_le_self v wei
+
+theorem regGet_id : ∀ (r : Reg) (id : Nat) (m : MinerRec), regGet r id = some m → m.id = id := by
+  intro r
+  induction r with
+  | nil => intro id m h; simp [regGet] at h
+  | cons x r ih =>
+    intro id m h
+    simp only [regGet] at h
+    by_cases c : x.id = id
+    · simp only [c, if_true, Option.some.injEq] at h; subst h; exact c
+    · simp only [c, if_false] at h; exact ih id m h
+
+theorem stakeSum_regSet : ∀ (r : Reg) (m x : MinerRec), regGet r x.id = some m →
+    stakeSum (regSet r x) + toWei m.stake = stakeSum r + toWei x.stake := by
+  intro r
+  induction r with
+  | nil => intro m x h; simp [regGet] at h
+  | cons y r ih =>
+    intro m x h
+    simp only [regGet] at h
+    simp only [regSet]
+    by_cases c : y.id = x.id
+    · simp only [c, if_true, Option.some.injEq] at h
+      subst h
+      simp only [c, if_true, stakeSum]; omega
+    · simp only [c, if_false] at h
+      simp only [c, if_false, stakeSum]
+      have := ih m x h
+      omega
+
+theorem stakeSum_regSet_new : ∀ (r : Reg) (x : MinerRec), regGet r x.id = none →
+    stakeSum (regSet r x) = stakeSum r + toWei x.stake := by
+  intro r
+  induction r with
+  | nil => intro x _; simp [regSet, stakeSum]
+  | cons y r ih =>
+    intro x h
+    simp only [regGet] at h
+    simp only [regSet]
+    by_cases c : y.id = x.id
+    · simp [c] at h
+    · simp only [c, if_false] at h
+      simp only [c, if_false, stakeSum]
+      have := ih x h
+      omega
+
+theorem stakeSum_regDel : ∀ (r : Reg) (id : Nat) (m : MinerRec), regGet r id = some m →
+    stakeSum (regDel r id) + toWei m.stake = stakeSum r := by
+  intro r
+  induction r with
+  | nil => intro id m h; simp [regGet] at h
+  | cons y r ih =>
+    intro id m h
+    simp only [regGet] at h
+    simp only [regDel]
+    by_cases c : y.id = id
+    · simp only [c, if_true, Option.some.injEq] at h
+      subst h
+      simp only [c, if_true, stakeSum]; omega
+    · simp only [c, if_false] at h
+      simp only [c, if_false, stakeSum]
+      have := ih id m h
+      omega
+
+/-- `GetRefundStake` removes from the registry exactly the tokens it reports as refunded. -/
+theorem getRefundStake_sum (r r' : Reg) (hc : Addr → Bool) (id : Nat) (acct a : Addr) (money refund : Nat)
+    (h : getRefundStake r hc id acct money = some (r', refund, a)) :
+    stakeSum r' + toWei refund = stakeSum r := by
+  unfold getRefundStake at h
+  cases hg : regGet r id with
+  | none => simp [hg] at h
+  | some m =>
+    simp only [hg] at h
+    by_cases c1 : m.account ≠ acct
+    · simp [c1] at h
+    · simp only [c1, if_false] at h
+      have hid := regGet_id r id m hg
+      generalize hm : (if money = uint64Max then m.stake else money) = mny at h
+      by_cases c2 : m.stake < mny
+      · simp [c2] at h
+      · simp only [c2, if_false, Option.some.injEq, Prod.mk.injEq] at h
+        obtain ⟨h1, h2, _⟩ := h
+        subst h2
+        have hle : mny ≤ m.stake := by omega
+        have hw := toWei_sub_add m.stake mny hle
+        by_cases hz : (decide (m.stake - mny < minStake m.typ) && decide (m.stake - mny = 0) && !hc acct) = true
+        · rw [if_pos hz] at h1
+          subst h1
+          have := stakeSum_regDel r id m hg
+          have hz0 : m.stake - mny = 0 := by
+            simp only [Bool.and_eq_true, decide_eq_true_eq] at hz
+            exact hz.1.2
+          rw [hz0] at hw
+          have : toWei 0 = 0 := rfl
+          omega
+        · rw [if_neg hz] at h1
+          subst h1
+          have := stakeSum_regSet r m { m with stake := m.stake - mny } (by simpa [hid] using hg)
+          simp only at this
+          omega
+
+theorem escrowTotal_append : ∀ (e f : Escrow), escrowTotal (e ++ f) = escrowTotal e + escrowTotal f := by
+  intro e f
+  induction e with
+  | nil => simp [escrowTotal]
+  | cons p r ih =>
+    obtain ⟨k, a, v⟩ := p
+    simp only [List.cons_append, escrowTotal, ih]; omega
+
+theorem escrowTotal_single (h : Nat) (a : Addr) (v : Nat) : escrowTotal [(h, a, v)] = v := by
+  simp [escrowTotal]
+
 end Rangers.Ledger
